@@ -80,6 +80,24 @@ PROPS = {
         cases=[('wire', 500, 8000, [])],
         oracle='c06',
     ),
+    'C07': dict(
+        title="all message memory comes from, and returns to, the caller's allocator",
+        modules=['Pbc.Props.C07'],
+        theorems=['Pbc.Props.C07.freeMsg_log', 'Pbc.Props.C07.freeVal_log', 'Pbc.Props.C07.freeSlots_log',
+                  'Pbc.Props.C07.foldl_free_log', 'Pbc.Props.C07.first_alloc_refused'],
+        refine=[],
+        cases=[('alloc', 400, 6000, [])],
+        oracle='c07',
+    ),
+    'C08': dict(
+        title='a refused allocation at any point fails cleanly',
+        modules=['Pbc.Props.C07', 'Pbc.Props.C18'],
+        theorems=['Pbc.Props.C07.freeMsg_log', 'Pbc.Props.C07.first_alloc_refused', 'Pbc.Props.C18.append_inv',
+                  'Pbc.Props.C18.append_log'],
+        refine=[],
+        cases=[('fault', 40, 400, []), ('append', 100, 1000, [])],
+        oracle='c08',
+    ),
     'C11': dict(
         title='missing required fields are always detected, never misjudged',
         modules=['Pbc.Props.C11'],
